@@ -748,16 +748,8 @@ def run_case(case, ctx):
 
 # --------------------------------------------------------------------------
 def classify(case, witness):
-    """Mechanisms of the two repaired C08 defects, as predicates over the input."""
-    if not isinstance(witness, dict):
-        return None
-    mech = witness.get("mechanism") or {}
-    text = repr(witness.get("raised", ""))
-    if "IndexError" in text and (mech.get("on_upper_outer_border") or mech.get("vertex_on_upper_outer_border")):
-        return "C08:upper-border-indexerror"
-    if mech.get("query_kind") == "nbh" and mech.get("missing_only_via_leg_on_upper_outer_border"):
-        return "C08:leg-on-upper-outer-border"
-    if mech.get("query_kind") == "nbh" and mech.get("nonsquare_cells") and \
-            ("groundDistanceToUnits" in text or mech.get("unit_below_distance_over_smaller_side")):
-        return "C08:ground-distance-units-non-square"
+    """No open finding for C08.  The three defects this check reported (upper-border IndexError, larger cell side in
+    groundDistanceToUnits, leg on the upper outer border registered nowhere) are repaired in the repository
+    ('fixed' entries in known_findings.json suppress nothing); the input predicates that identified them stay in
+    the witness under "mechanism" for diagnosis only."""
     return None
